@@ -162,7 +162,10 @@ func floatBitsIssues(s *sided) []sideIssue {
 				if !ok {
 					continue
 				}
-				zero := func(e ast.Expr) bool { bl, ok := unparen(e).(*ast.BasicLit); return ok && (bl.Value == "0" || bl.Value == "0.0") }
+				zero := func(e ast.Expr) bool {
+					bl, ok := unparen(e).(*ast.BasicLit)
+					return ok && (bl.Value == "0" || bl.Value == "0.0")
+				}
 				if ((be.Op == token.EQL && !g.pos) || (be.Op == token.NEQ && g.pos)) && zero(be.Y) && canon(be.X) == canon(arg) {
 					nonZero = true
 				}
